@@ -79,11 +79,59 @@ class CheckBroken(Exception):
     """The check itself is unsound/vacuous (exit 2, never a VIOLATION line)."""
 
 
+class ImplementationRaised(Exception):
+    """An exception that escaped from netqasm's own code while a check was exploring (see `netqasm_origin`); the
+    violation is already recorded in ctx.total, the exploration cannot continue."""
+
+
+def netqasm_origin(exc: BaseException) -> Optional[str]:
+    """'<file>:<function>' when the innermost frame of exc's traceback that belongs to either this machinery or the netqasm
+    package is netqasm's: the implementation itself raised on an input the check was exploring.  Every check runs to
+    completion on the unchanged tree and is deterministic, so there such an exception cannot occur; the checks catch the
+    exceptions their oracle allows (rejections, documented errors) themselves.  None when the machinery raised (a broken
+    check) or for its own control-flow signals."""
+    if not isinstance(exc, Exception) or isinstance(exc, (CheckBroken, ImplementationRaised)):
+        return None
+    fr = _frames(exc)
+    if fr and fr[-1][0] == "netqasm":
+        return f"{fr[-1][1]}:{fr[-1][2]}"
+    return None
+
+
+def _frames(exc: BaseException) -> List[tuple]:
+    try:
+        import netqasm
+        pkg = os.path.dirname(os.path.abspath(netqasm.__file__)) + os.sep
+    except Exception:
+        return []
+    out = []
+    tb = exc.__traceback__
+    while tb is not None:
+        fn = os.path.abspath(tb.tb_frame.f_code.co_filename)
+        if fn.startswith(pkg):
+            out.append(("netqasm", "netqasm/" + fn[len(pkg):], tb.tb_frame.f_code.co_name))
+        elif fn.startswith(ROOT + os.sep):
+            out.append(("verif", fn[len(ROOT) + 1:], tb.tb_frame.f_code.co_name))
+        tb = tb.tb_next
+    return out
+
+
+def implementation_violation(exc: BaseException, origin: str, case: Any) -> Dict[str, Any]:
+    text = str(exc).splitlines()[0][:200] if str(exc) else ""
+    return {"fingerprint": f"implementation-raises/{type(exc).__name__}/{origin}",
+            "what": f"netqasm raised {type(exc).__name__}: {text} (in {origin}) on an input this check explores; on the unchanged "
+                    "tree the same deterministic exploration completes, and rejections the property allows are caught by the check",
+            "case": jsonable(case), "detail": jsonable({"traceback": traceback.format_exception(type(exc), exc, exc.__traceback__)[-6:]})}
+
+
 def _guarded(args):
     fn, shard = args
     try:
         return ("ok", fn(shard))
     except BaseException as exc:  # noqa
+        origin = netqasm_origin(exc)
+        if origin is not None:
+            return ("viol", implementation_violation(exc, origin, {"_fn": f"{fn.__module__}:{fn.__qualname__}", "_shard": shard}))
         return ("err", f"shard {shard!r}: {type(exc).__name__}: {exc}\n{traceback.format_exc()}")
 
 
@@ -122,6 +170,14 @@ class Ctx:
             mpctx = mp.get_context("fork")
             with mpctx.Pool(min(self.jobs, len(shards))) as pool:
                 outs = pool.map(_guarded, work, chunksize)
+        viols = [val for status, val in outs if status == "viol"]
+        if viols:
+            for v in viols:
+                count(self.total, "violation:" + v["fingerprint"])
+                if sum(1 for x in self.total["violations"] if x["fingerprint"] == v["fingerprint"]) < MAX_VIOLATIONS_PER_FP:
+                    self.total["violations"].append(v)
+            self.total["notes"].append("exploration aborted: the implementation raised inside a shard (see the implementation-raises/* violation)")
+            raise ImplementationRaised(viols[0]["what"])
         for i, (status, val) in zip(order, outs):
             if status == "err":
                 raise CheckBroken(val)
